@@ -663,9 +663,9 @@ def shapes(tier, seed):
                                  dict(n=n, keys=keys, kind=kind, ncount=ncount, via=via), modules=MODS))
     out.append(Shape("resample/function/N10000000/n1/0+1/chunk-multiple", h_resample,
                      dict(n=1, keys=["0", "1"], kind="probs", ncount=10 ** 7, via="function"), modules=MODS))
+    out.append(Shape("resample/function/N10000003/n2/00+11", h_resample,
+                     dict(n=2, keys=["00", "11"], kind="probs", ncount=10 ** 7 + 3, via="function"), modules=MODS))
     if not quick:
-        out.append(Shape("resample/function/N10000003/n2/00+11", h_resample,
-                         dict(n=2, keys=["00", "11"], kind="probs", ncount=10 ** 7 + 3, via="function"), modules=MODS))
         out.append(Shape("resample/function/N20000000/n1/0+1", h_resample,
                          dict(n=1, keys=["0", "1"], kind="probs", ncount=2 * 10 ** 7, via="function"), modules=MODS))
     # ---------------- canaries
